@@ -229,7 +229,7 @@ def _prep():
     from drivers import prep
 
     def variants(tier, r, cin):
-        return list(prep.VARIANTS) if tier == "thorough" else [r.choice(prep.VARIANTS[:6]), r.choice(prep.VARIANTS[6:10]), r.choice(prep.VARIANTS[10:])]
+        return list(prep.VARIANTS) if tier == "thorough" else [r.choice(prep.VARIANTS[:6]), r.choice(prep.VARIANTS[6:10]), r.choice(prep.VARIANTS[10:14]), r.choice(prep.VARIANTS[14:])]
 
     return runner.PureSpec(
         prop="C17", module="Prep", trace_module="PrepTrace", driver="drivers.prep",
